@@ -15,7 +15,8 @@ EXPLAIN["C06"] = (
     "C09-Op2); K6 recovery: a persistent intermediate state set at one site must be undone on every path of the same operation or by the open path - "
     "the REMOVED mark on a still-linked node is undone only by the marking thread itself (C07-T1), nothing reachable from the open path touches node "
     "words, and every traversal waits on such a node: a crash between the two CAS of a pop leaves a file on which alloc / dealloc spin for ever. "
-    "K6 is reported as a known finding (one key per marking site).")
+    "K6 is reported as a known finding (one key per marking site). K7 clear() resets the in-file header (empty sentinel, cursor at data_offset) before it zeroes "
+    "the data area: zeroing turns node words into 0 = REMOVED, so the list must be unpublished first.")
 ASSUME["C06"] = ["a killed process loses no store already performed on the shared mapping (page cache)", "no power-loss / torn-page model",
                  "histories x crash points are not enumerated: only per-operation write order is decided"]
 
@@ -102,3 +103,31 @@ def k6(ctx):
                                                                                    "the open path repairs node words at %s" % (repair[:2],) if repair else
                                                                                    "no function reachable from the %d open-path bodies touches a node word, and traversals wait on REMOVED nodes: a crash inside the window "
                                                                                    "leaves a file on which alloc / dealloc / discard_freelist spin for ever" % len(opened)), ctx.loc(marks[0]))
+
+
+@rule("C06-K7", "C06", 2, "clear: the list is unpublished before its nodes are destroyed - on the in-file (unified) layout the header reset (cursor := data_offset, "
+      "sentinel := empty) is stored before the data area is zeroed, so a kill inside the wipe never leaves a sentinel pointing at a zeroed node word (0 = REMOVED: "
+      "every traversal would wait on it for ever)", configs=MEMCFG)
+def k7(ctx):
+    b = ctx.facts.one(r"^memory::Memory::<R, PR, H>::clear$")
+    ev, res = ctx.eval(b)
+    SELF = ("param", 0, "self")
+    IMM = {"unify"}
+    U = canon(("hload", SELF, ("unify",), ("v", 0)), IMM)
+    wb = [e for e in res.log if e["kind"] == "call" and e.get("effect") == "write_bytes" and not e["chain"]]
+    hw = [e for e in res.log if e["kind"] == "call" and e.get("effect") == "ptr_write" and not e["chain"]]
+    yield Ob(key_of("C06-K7", b.path, "anchors"), len(wb) >= 1 and len(hw) >= 1, "%d zeroing write(s), %d header write(s) in Memory::clear" % (len(wb), len(hw)), b.loc())
+    # edges taken only when the header is NOT in the mapping (self.unify false) do not matter for the file
+    removed = set()
+    for x, c in res.conds.items():
+        if canon(c, IMM) == U:
+            t = b.blocks[x]["term"]
+            for v, bb in t["arms"]:
+                if int(v) == 0:
+                    removed.add((x, bb))
+    stop = frozenset(e["bb"] for e in hw)
+    reach = b.reach(0, removed=frozenset(removed), stop=stop)
+    for e in wb:
+        same_block_before = any(h["bb"] == e["bb"] and h["seq"] < e["seq"] for h in hw)
+        ok = same_block_before or (e["bb"] not in reach) or (e["bb"] in stop and any(h["bb"] == e["bb"] and h["seq"] < e["seq"] for h in hw))
+        yield Ob(key_of("C06-K7", b.path, "header-reset-before-wipe"), ok, "every path (self.unify) to the zeroing of the data area passes the header write first", ctx.loc(e))
